@@ -121,6 +121,163 @@ theorem denotes_length (cs : List Term) (env : List Int) : (denotes cs env).leng
   | nil => simp [denotes]
   | cons c cs ih => simp [denotes, ih]
 
+/-! ### Stopped-free terms (for the pinned code variant) -/
+
+mutual
+/-- No `stop` leaf and no scheduler completing with stopped: such a pipeline can never complete
+    with `set_stopped`. -/
+def stoppedFree : Term → Bool
+  | .just _ => true
+  | .err _ => true
+  | .stop => false
+  | .arg => true
+  | .thn _ p => stoppedFree p
+  | .lv _ p b => stoppedFree p && stoppedFree b
+  | .le _ p b => stoppedFree p && stoppedFree b
+  | .dv p => stoppedFree p
+  | .un p => stoppedFree p
+  | .co sc p => decide (sc ≠ .s) && stoppedFree p
+  | .tj sc _ => decide (sc ≠ .s)
+  | .wa c cs => stoppedFree c && stoppedFrees cs
+  | .wv cs => stoppedFrees cs
+  | .sp p => stoppedFree p
+  | .es p => stoppedFree p
+  | .st _ p => stoppedFree p
+  | .bulk _ _ p => stoppedFree p
+  | .rs p => stoppedFree p
+  | .dos p => stoppedFree p
+  | .sd sc => decide (sc ≠ .s)
+def stoppedFrees : List Term → Bool
+  | [] => true
+  | c :: cs => stoppedFree c && stoppedFrees cs
+end
+
+theorem applySch_ns (sc : Sch) (h : sc ≠ .s) (sig : Sig) (hs : sig ≠ .stopped) :
+    applySch sc sig ≠ .stopped := by
+  cases sig <;> cases sc <;> simp_all [applySch]
+
+theorem applyThen_ns (f : Fn) (sig : Sig) (hs : sig ≠ .stopped) : applyThen f sig ≠ .stopped := by
+  cases sig <;> simp_all [applyThen]
+  split <;> simp
+
+theorem applyBulk_ns (n : Nat) (f : Fn) (sig : Sig) (hs : sig ≠ .stopped) :
+    applyBulk n f sig ≠ .stopped := by
+  cases sig <;> simp_all [applyBulk]
+  split <;> simp
+
+theorem joinAux_ns (l : List Sig) (h : ∀ x, x ∈ l → x ≠ .stopped) : ∀ acc, joinAux acc l ≠ .stopped := by
+  induction l with
+  | nil => intro acc; simp [joinAux]
+  | cons x r ih =>
+    intro acc
+    cases x with
+    | value vs => simp only [joinAux]; exact ih (fun y hy => h y (List.mem_cons_of_mem _ hy)) _
+    | error e => simp [joinAux]
+    | stopped => exact absurd rfl (h .stopped (List.mem_cons_self))
+
+/-- A stopped-free term never denotes stopped. -/
+theorem denote_ns : ∀ t : Term, stoppedFree t = true → ∀ env, denote t env ≠ .stopped
+  | .just _, _, _ => by simp [denote]
+  | .err _, _, _ => by simp [denote]
+  | .stop, h, _ => by simp [stoppedFree] at h
+  | .arg, _, _ => by simp [denote]
+  | .thn f p, h, env => by
+    simp only [stoppedFree] at h
+    simp only [denote]; exact applyThen_ns f _ (denote_ns p h env)
+  | .lv f p b, h, env => by
+    simp only [stoppedFree, Bool.and_eq_true] at h
+    have hp := denote_ns p h.1 env
+    simp only [denote]
+    cases hd : denote p env with
+    | value vs =>
+      simp only
+      cases f.apply vs with
+      | ok r => exact denote_ns b h.2 r
+      | error e => simp
+    | error e => simp
+    | stopped => exact absurd hd hp
+  | .le f p b, h, env => by
+    simp only [stoppedFree, Bool.and_eq_true] at h
+    have hp := denote_ns p h.1 env
+    simp only [denote]
+    cases hd : denote p env with
+    | error e =>
+      simp only
+      cases f.apply [e] with
+      | ok r => exact denote_ns b h.2 r
+      | error e => simp
+    | value vs => simp
+    | stopped => exact absurd hd hp
+  | .dv p, h, env => by
+    simp only [stoppedFree] at h
+    have hp := denote_ns p h env
+    simp only [denote]
+    cases hd : denote p env <;> simp_all
+  | .un p, h, env => by
+    simp only [stoppedFree] at h
+    simp only [denote]; exact denote_ns p h env
+  | .co sc p, h, env => by
+    simp only [stoppedFree, Bool.and_eq_true, decide_eq_true_eq] at h
+    simp only [denote]; exact applySch_ns sc h.1 _ (denote_ns p h.2 env)
+  | .tj sc vs, h, env => by
+    simp only [stoppedFree, decide_eq_true_eq] at h
+    simp only [denote]; exact applySch_ns sc h _ (by simp)
+  | .sd sc, h, env => by
+    simp only [stoppedFree, decide_eq_true_eq] at h
+    simp only [denote]; exact applySch_ns sc h _ (by simp)
+  | .wa c cs, h, env => by
+    simp only [stoppedFree, Bool.and_eq_true] at h
+    simp only [denote, join]
+    apply joinAux_ns
+    intro x hx
+    rcases List.mem_cons.mp hx with hx | hx
+    · rw [hx]; exact denote_ns c h.1 env
+    · exact denotes_ns cs h.2 env x hx
+  | .wv cs, h, env => by
+    simp only [stoppedFree] at h
+    simp only [denote, join]
+    exact joinAux_ns _ (denotes_ns cs h env) _
+  | .sp p, h, env => by
+    simp only [stoppedFree] at h
+    simp only [denote]; exact denote_ns p h env
+  | .es p, h, env => by
+    simp only [stoppedFree] at h
+    simp only [denote]; exact denote_ns p h env
+  | .rs p, h, env => by
+    simp only [stoppedFree] at h
+    simp only [denote]; exact denote_ns p h env
+  | .dos p, h, env => by
+    simp only [stoppedFree] at h
+    simp only [denote]; exact denote_ns p h env
+  | .st i p, h, env => by
+    simp only [stoppedFree] at h
+    have hp := denote_ns p h env
+    simp only [denote]
+    cases hd : denote p env <;> simp_all
+  | .bulk n f p, h, env => by
+    simp only [stoppedFree] at h
+    simp only [denote]; exact applyBulk_ns n f _ (denote_ns p h env)
+where
+  denotes_ns : ∀ cs : List Term, stoppedFrees cs = true → ∀ env x, x ∈ denotes cs env → x ≠ .stopped
+  | [], _, _, x, hx => by simp [denotes] at hx
+  | c :: cs, h, env, x, hx => by
+    simp only [stoppedFrees, Bool.and_eq_true] at h
+    simp only [denotes] at hx
+    rcases List.mem_cons.mp hx with hx | hx
+    · rw [hx]; exact denote_ns c h.1 env
+    · exact denotes_ns cs h.2 env x hx
+
+/-- The code variant handles the term: either it is the repaired tree, or the term can never
+    complete with stopped (the only completion the pinned `split` / `split_tuple` mishandle). -/
+def Good (cfg : Cfg) (t : Term) : Prop := cfg.ok = true ∨ stoppedFree t = true
+def GoodL (cfg : Cfg) (cs : List Term) : Prop := cfg.ok = true ∨ stoppedFrees cs = true
+
+theorem storeR_ns (flag : Bool) (a : Nat) (sig : Sig) (s : M) (h : flag = true ∨ sig ≠ .stopped) :
+    storeR flag a sig s = storeR true a sig s := by
+  rcases h with h | h
+  · rw [h]
+  · cases sig <;> simp_all [storeR]
+
 /-! ### The receiver contract, by structural induction over terms -/
 
 /-- The statement for one term: whatever receiver is connected and whatever the machine state,
@@ -198,13 +355,13 @@ theorem visit_done (a : Nat) (sel : List Int → List Int) (k : Rc) (s : M) (ha 
   cases (s.cells a).stored <;> rfl
 
 theorem spec_visit (cfg : Cfg) (p : Term) (flag : Bool) (sel : List Int → List Int)
-    (hflag : flag = true) (hp : Spec cfg p) (env : List Int) (k : Rc) (s : M)
+    (hflag : flag = true ∨ ∀ env, denote p env ≠ .stopped) (hp : Spec cfg p) (env : List Int) (k : Rc) (s : M)
     (ha : s.aborted = false) (hr : s.released = false) :
     ∃ s', visit s.next sel k (start cfg p env (storeR flag s.next) (alloc {} s)) =
         k (match denote p env with | .value vs => .value (sel vs) | o => o) s' ∧ Ext s.next s s' := by
-  subst hflag
   have x0 := Ext.alloc {} s ha hr
-  obtain ⟨s1, e1, x1⟩ := hp env (storeR true s.next) (alloc {} s) x0.aborted x0.released
+  obtain ⟨s1, e1, x1⟩ := hp env (storeR flag s.next) (alloc {} s) x0.aborted x0.released
+  rw [storeR_ns flag _ _ _ (hflag.imp id (fun h => h env))] at e1
   have hcell : s1.cells s.next = {} := by
     have : (alloc {} s).cells s.next = {} := by simp [alloc]
     rw [x1.cells s.next (by simp [alloc]) (by simp [alloc]), this]
@@ -231,64 +388,75 @@ theorem spec_fwd (cfg : Cfg) (p : Term) (c : Cell) (hp : Spec cfg p) (env : List
   refine ⟨s1, ?_, x0.trans (x1.weaken s.next (by simp [alloc]))⟩
   rw [e1]; simp only [fwdR, touch_id x1.released]
 
-/-- **Receiver contract** for every term of the language (code variant `cfg.ok`). -/
-theorem spec (cfg : Cfg) (hc : cfg.ok = true) : ∀ t : Term, Spec cfg t
-  | .just vs => fun env k s ha hr => ⟨s, by simp [start, ha, denote], Ext.refl _ _ ha hr⟩
-  | .err e => fun env k s ha hr => ⟨s, by simp [start, ha, denote], Ext.refl _ _ ha hr⟩
-  | .stop => fun env k s ha hr => ⟨s, by simp [start, ha, denote], Ext.refl _ _ ha hr⟩
-  | .arg => fun env k s ha hr => ⟨s, by simp [start, ha, denote], Ext.refl _ _ ha hr⟩
-  | .thn f p => fun env k s ha hr => by
-    obtain ⟨s1, e1, x1⟩ := spec cfg hc p env (thenR f k) s ha hr
+theorem good_of {cfg : Cfg} {t t' : Term} (hg : Good cfg t)
+    (h : stoppedFree t = true → stoppedFree t' = true) : Good cfg t' := hg.imp id h
+
+/-- **Receiver contract** for every term the code variant handles: every term for the repaired
+    tree (`cfg.ok`), every stopped-free term for the pinned tree. -/
+theorem specG (cfg : Cfg) (hw : cfg.wvSendsDone = true) : ∀ t : Term, Good cfg t → Spec cfg t
+  | .just vs, _ => fun env k s ha hr => ⟨s, by simp [start, ha, denote], Ext.refl _ _ ha hr⟩
+  | .err e, _ => fun env k s ha hr => ⟨s, by simp [start, ha, denote], Ext.refl _ _ ha hr⟩
+  | .stop, _ => fun env k s ha hr => ⟨s, by simp [start, ha, denote], Ext.refl _ _ ha hr⟩
+  | .arg, _ => fun env k s ha hr => ⟨s, by simp [start, ha, denote], Ext.refl _ _ ha hr⟩
+  | .sd sc, _ => fun env k s ha hr => ⟨s, by simp [start, ha, denote], Ext.refl _ _ ha hr⟩
+  | .thn f p, hg => fun env k s ha hr => by
+    obtain ⟨s1, e1, x1⟩ := specG cfg hw p (good_of hg (by simp [stoppedFree])) env (thenR f k) s ha hr
     exact ⟨s1, by simp [start, ha, denote, e1, thenR], x1⟩
-  | .bulk n f p => fun env k s ha hr => by
-    obtain ⟨s1, e1, x1⟩ := spec cfg hc p env (bulkR n f k) s ha hr
+  | .bulk n f p, hg => fun env k s ha hr => by
+    obtain ⟨s1, e1, x1⟩ := specG cfg hw p (good_of hg (by simp [stoppedFree])) env (bulkR n f k) s ha hr
     exact ⟨s1, by simp [start, ha, denote, e1, bulkR], x1⟩
-  | .rs p => fun env k s ha hr => by
-    obtain ⟨s1, e1, x1⟩ := spec_fwd cfg p { done := true } (spec cfg hc p) env k s ha hr
+  | .rs p, hg => fun env k s ha hr => by
+    obtain ⟨s1, e1, x1⟩ := spec_fwd cfg p { done := true }
+      (specG cfg hw p (good_of hg (by simp [stoppedFree]))) env k s ha hr
     exact ⟨s1, by simp [start, ha, denote, e1], x1⟩
-  | .dos p => fun env k s ha hr => by
-    obtain ⟨s1, e1, x1⟩ := spec_fwd cfg p {} (spec cfg hc p) env k s ha hr
+  | .dos p, hg => fun env k s ha hr => by
+    obtain ⟨s1, e1, x1⟩ := spec_fwd cfg p {}
+      (specG cfg hw p (good_of hg (by simp [stoppedFree]))) env k s ha hr
     exact ⟨s1, by simp [start, ha, denote, e1], x1⟩
-  | .sd sc => fun env k s ha hr => ⟨s, by simp [start, ha, denote], Ext.refl _ _ ha hr⟩
-  | .dv p => fun env k s ha hr => by
-    obtain ⟨s1, e1, x1⟩ := spec cfg hc p env (dropR k) s ha hr
+  | .dv p, hg => fun env k s ha hr => by
+    obtain ⟨s1, e1, x1⟩ := specG cfg hw p (good_of hg (by simp [stoppedFree])) env (dropR k) s ha hr
     refine ⟨s1, ?_, x1⟩
     simp only [start, ha, denote, e1, dropR]
     cases denote p env <;> simp
-  | .un p => fun env k s ha hr => by
-    obtain ⟨s1, e1, x1⟩ := spec cfg hc p env (unR k) s ha hr
+  | .un p, hg => fun env k s ha hr => by
+    obtain ⟨s1, e1, x1⟩ := specG cfg hw p (good_of hg (by simp [stoppedFree])) env (unR k) s ha hr
     refine ⟨s1, ?_, x1⟩
     simp only [start, ha, denote, e1, unR]
     cases denote p env <;> simp
-  | .lv f p b => fun env k s ha hr => by
-    obtain ⟨s1, e1, x1⟩ := spec cfg hc p env _ s ha hr
+  | .lv f p b, hg => fun env k s ha hr => by
+    have hgp : Good cfg p := good_of hg (by simp only [stoppedFree, Bool.and_eq_true]; exact fun h => h.1)
+    have hgb : Good cfg b := good_of hg (by simp only [stoppedFree, Bool.and_eq_true]; exact fun h => h.2)
+    obtain ⟨s1, e1, x1⟩ := specG cfg hw p hgp env _ s ha hr
     simp only [start, ha, denote, Bool.false_eq_true, if_false]
     rw [e1]
     cases hd : denote p env with
     | value vs =>
       cases hf : f.apply vs with
       | ok r =>
-        obtain ⟨s2, e2, x2⟩ := spec cfg hc b r k s1 x1.aborted x1.released
+        obtain ⟨s2, e2, x2⟩ := specG cfg hw b hgb r k s1 x1.aborted x1.released
         exact ⟨s2, by simp [hf, e2], x1.trans (x2.weaken _ (Nat.le_refl _))⟩
       | error e => exact ⟨s1, by simp [hf], x1⟩
     | error e => exact ⟨s1, by simp, x1⟩
     | stopped => exact ⟨s1, by simp, x1⟩
-  | .le f p b => fun env k s ha hr => by
-    obtain ⟨s1, e1, x1⟩ := spec cfg hc p env _ s ha hr
+  | .le f p b, hg => fun env k s ha hr => by
+    have hgp : Good cfg p := good_of hg (by simp only [stoppedFree, Bool.and_eq_true]; exact fun h => h.1)
+    have hgb : Good cfg b := good_of hg (by simp only [stoppedFree, Bool.and_eq_true]; exact fun h => h.2)
+    obtain ⟨s1, e1, x1⟩ := specG cfg hw p hgp env _ s ha hr
     simp only [start, ha, denote, Bool.false_eq_true, if_false]
     rw [e1]
     cases hd : denote p env with
     | error e =>
       cases hf : f.apply [e] with
       | ok r =>
-        obtain ⟨s2, e2, x2⟩ := spec cfg hc b r k s1 x1.aborted x1.released
+        obtain ⟨s2, e2, x2⟩ := specG cfg hw b hgb r k s1 x1.aborted x1.released
         exact ⟨s2, by simp [hf, e2], x1.trans (x2.weaken _ (Nat.le_refl _))⟩
       | error e' => exact ⟨s1, by simp [hf], x1⟩
     | value vs => exact ⟨s1, by simp, x1⟩
     | stopped => exact ⟨s1, by simp, x1⟩
-  | .co sc p => fun env k s ha hr => by
+  | .co sc p, hg => fun env k s ha hr => by
+    have hgp : Good cfg p := good_of hg (by simp only [stoppedFree, Bool.and_eq_true]; exact fun h => h.2)
     have x0 := Ext.alloc {} s ha hr
-    obtain ⟨s1, e1, x1⟩ := spec cfg hc p env (schedR sc s.next k) (alloc {} s) x0.aborted x0.released
+    obtain ⟨s1, e1, x1⟩ := specG cfg hw p hgp env (schedR sc s.next k) (alloc {} s) x0.aborted x0.released
     simp only [start, ha, denote, Bool.false_eq_true, if_false]
     rw [e1]
     have x01 := x0.trans (x1.weaken s.next (by simp [alloc]))
@@ -298,59 +466,75 @@ theorem spec (cfg : Cfg) (hc : cfg.ok = true) : ∀ t : Term, Spec cfg t
       exact ⟨s2, e2, x01.trans x2⟩
     | error e => exact ⟨s1, by simp [schedR, applySch, touch_id x1.released], x01⟩
     | stopped => exact ⟨s1, by simp [schedR, applySch, touch_id x1.released], x01⟩
-  | .tj sc vs => fun env k s ha hr => by
+  | .tj sc vs, _ => fun env k s ha hr => by
     have x0 := Ext.alloc {} s ha hr
     simp only [start, ha, denote, Bool.false_eq_true, if_false]
     obtain ⟨s2, e2, x2⟩ := schedR_value sc s.next k vs (alloc {} s) x0.aborted x0.released
     exact ⟨s2, e2, x0.trans x2⟩
-  | .sp p => fun env k s ha hr => by
-    have hf : cfg.splitStoresStopped = true := by
-      simp [Cfg.ok] at hc; exact hc.1.1
-    obtain ⟨s1, e1, x1⟩ := spec_visit cfg p _ (fun v => v) hf (spec cfg hc p) env k s ha hr
+  | .sp p, hg => fun env k s ha hr => by
+    have hgp : Good cfg p := good_of hg (by simp [stoppedFree])
+    have hf : cfg.splitStoresStopped = true ∨ ∀ env, denote p env ≠ .stopped := by
+      rcases hg with hc | hs
+      · left; simp [Cfg.ok] at hc; exact hc.1.1
+      · right; exact denote_ns p (by simpa [stoppedFree] using hs)
+    obtain ⟨s1, e1, x1⟩ := spec_visit cfg p _ (fun v => v) hf (specG cfg hw p hgp) env k s ha hr
     refine ⟨s1, ?_, x1⟩
     simp only [start, ha, denote, Bool.false_eq_true, if_false]
     rw [e1]; cases denote p env <;> rfl
-  | .es p => fun env k s ha hr => by
-    obtain ⟨s1, e1, x1⟩ := spec_visit cfg p _ (fun v => v) rfl (spec cfg hc p) env k s ha hr
+  | .es p, hg => fun env k s ha hr => by
+    have hgp : Good cfg p := good_of hg (by simp [stoppedFree])
+    obtain ⟨s1, e1, x1⟩ := spec_visit cfg p _ (fun v => v) (Or.inl rfl) (specG cfg hw p hgp) env k s ha hr
     refine ⟨s1, ?_, x1⟩
     simp only [start, ha, denote, Bool.false_eq_true, if_false]
     rw [e1]; cases denote p env <;> rfl
-  | .st i p => fun env k s ha hr => by
-    have hf : cfg.tupleStoresStopped = true := by
-      simp [Cfg.ok] at hc; exact hc.1.2
-    obtain ⟨s1, e1, x1⟩ := spec_visit cfg p _ (pick i) hf (spec cfg hc p) env k s ha hr
+  | .st i p, hg => fun env k s ha hr => by
+    have hgp : Good cfg p := good_of hg (by simp [stoppedFree])
+    have hf : cfg.tupleStoresStopped = true ∨ ∀ env, denote p env ≠ .stopped := by
+      rcases hg with hc | hs
+      · left; simp [Cfg.ok] at hc; exact hc.1.2
+      · right; exact denote_ns p (by simpa [stoppedFree] using hs)
+    obtain ⟨s1, e1, x1⟩ := spec_visit cfg p _ (pick i) hf (specG cfg hw p hgp) env k s ha hr
     refine ⟨s1, ?_, x1⟩
     simp only [start, ha, denote, Bool.false_eq_true, if_false]
     rw [e1]; cases denote p env <;> rfl
-  | .wa c cs => fun env k s ha hr => by
+  | .wa c cs, hg => fun env k s ha hr => by
+    have hgc : Good cfg c := good_of hg (by simp only [stoppedFree, Bool.and_eq_true]; exact fun h => h.1)
+    have hgs : GoodL cfg cs := hg.imp id (by simp only [stoppedFree, Bool.and_eq_true]; exact fun h => h.2)
     have x0 := Ext.alloc { remaining := cs.length + 1, slots := List.replicate (cs.length + 1) none } s ha hr
-    obtain ⟨s1, e1, x1⟩ := spec cfg hc c env (waR true s.next 0 k) _ x0.aborted x0.released
+    obtain ⟨s1, e1, x1⟩ := specG cfg hw c hgc env (waR true s.next 0 k) _ x0.aborted x0.released
     have hcell : s1.cells s.next = { remaining := cs.length + 1, slots := List.replicate (cs.length + 1) none } := by
       rw [x1.cells s.next (by simp [alloc]) (by simp [alloc])]; simp [alloc]
-    obtain ⟨s2, e2, x2⟩ := specAll cfg hc cs env true s.next k 0 (denote c env) s1 x1.aborted
+    obtain ⟨s2, e2, x2⟩ := specAll cfg hw cs hgs env true s.next k 0 (denote c env) s1 x1.aborted
       x1.released (Nat.lt_of_lt_of_le (by simp [alloc]) x1.next) (by rw [hcell])
     refine ⟨s2, ?_, x0.trans ((x1.weaken s.next (by simp [alloc])).trans x2)⟩
     simp only [start, ha, denote, Bool.false_eq_true, if_false, touch_id x0.released]
     rw [e1, e2, hcell, waFinish_init _ _ (by simp [denotes_length])]
     rfl
-  | .wv [] => fun env k s ha hr => ⟨s, by simp [start, ha, denote, denotes, join, joinAux], Ext.refl _ _ ha hr⟩
-  | .wv (c :: cs) => fun env k s ha hr => by
-    have hsd : cfg.wvSendsDone = true := by
-      simp [Cfg.ok] at hc; exact hc.2
+  | .wv [], _ => fun env k s ha hr => ⟨s, by simp [start, ha, denote, denotes, join, joinAux], Ext.refl _ _ ha hr⟩
+  | .wv (c :: cs), hg => fun env k s ha hr => by
+    have hgc : Good cfg c := good_of hg (by simp only [stoppedFree, stoppedFrees, Bool.and_eq_true]; exact fun h => h.1)
+    have hgs : GoodL cfg cs := hg.imp id (by simp only [stoppedFree, stoppedFrees, Bool.and_eq_true]; exact fun h => h.2)
     have x0 := Ext.alloc { remaining := cs.length + 1, slots := List.replicate (cs.length + 1) none } s ha hr
-    obtain ⟨s1, e1, x1⟩ := spec cfg hc c env (waR true s.next 0 k) _ x0.aborted x0.released
+    obtain ⟨s1, e1, x1⟩ := specG cfg hw c hgc env (waR true s.next 0 k) _ x0.aborted x0.released
     have hcell : s1.cells s.next = { remaining := cs.length + 1, slots := List.replicate (cs.length + 1) none } := by
       rw [x1.cells s.next (by simp [alloc]) (by simp [alloc])]; simp [alloc]
-    obtain ⟨s2, e2, x2⟩ := specAll cfg hc cs env true s.next k 0 (denote c env) s1 x1.aborted
+    obtain ⟨s2, e2, x2⟩ := specAll cfg hw cs hgs env true s.next k 0 (denote c env) s1 x1.aborted
       x1.released (Nat.lt_of_lt_of_le (by simp [alloc]) x1.next) (by rw [hcell])
     refine ⟨s2, ?_, x0.trans ((x1.weaken s.next (by simp [alloc])).trans x2)⟩
-    simp only [start, ha, denote, Bool.false_eq_true, if_false, List.isEmpty_cons, hsd, startAll,
+    simp only [start, ha, denote, Bool.false_eq_true, if_false, List.isEmpty_cons, hw, startAll,
       touch_id x0.released, List.length_cons]
     rw [e1, e2, hcell, waFinish_init _ _ (by simp [denotes_length])]
     rfl
 where
-  specAll (cfg : Cfg) (hc : cfg.ok = true) : ∀ cs : List Term, SpecAll cfg cs
-  | [] => specAll_nil cfg
-  | c :: cs => specAll_cons cfg c cs (spec cfg hc c) (specAll cfg hc cs)
+  specAll (cfg : Cfg) (hw : cfg.wvSendsDone = true) : ∀ cs : List Term, GoodL cfg cs → SpecAll cfg cs
+  | [], _ => specAll_nil cfg
+  | c :: cs, hg =>
+    specAll_cons cfg c cs
+      (specG cfg hw c (hg.imp id (by simp only [stoppedFrees, Bool.and_eq_true]; exact fun h => h.1)))
+      (specAll cfg hw cs (hg.imp id (by simp only [stoppedFrees, Bool.and_eq_true]; exact fun h => h.2)))
+
+/-- **Receiver contract** for every term of the language (code variant `cfg.ok`). -/
+theorem spec (cfg : Cfg) (hc : cfg.ok = true) (t : Term) : Spec cfg t :=
+  specG cfg (by simp [Cfg.ok] at hc; exact hc.2) t (Or.inl hc)
 
 end PikaVerif.Snd
